@@ -29,3 +29,8 @@ namespace Sema.Go
 a nil dereference panics in Go, here it reads the zero value -/
 def deref {α : Type} [Inhabited α] (p : Option α) : α := p.getD default
 end Sema.Go
+
+namespace Sema.Go
+/-- `%d` of an `int` / `int64` -/
+def fmtInt (i : Int) : String := toString i
+end Sema.Go
